@@ -717,6 +717,9 @@ func c21JudgeRecv(a *c21Acc, ty c21Type, pc string, r c21Result) {
 		if pc == "missing_swap_id" || pc == "null_swap_id" {
 			kpc = "no_swap_id"
 		}
+		if why == "oversize" {
+			kpc = "over_100KiB"
+		}
 		a.viol(fmt.Sprintf("junk_changes_swap:why=%s:type=%s:payload=%s:effect=%s", why, ty.name, kpc, effect), r.detail)
 		return
 	}
